@@ -81,6 +81,55 @@ fn trigger_programs() -> Vec<P> {
     out.into_iter().map(P::normalized).collect()
 }
 
+/// A task that drives a nested command by hand (public `Stream` impl) while also awaiting a request
+/// of its own: the hosting task has a wake source besides the command it hosts. Command-level hosts.
+pub fn join_hosted_programs(thorough: bool) -> Vec<P> {
+    let mut inner = vec![
+        P::Req(s0()),
+        P::Select(s0(), s0()),
+        P::Join(s0(), s0()),
+        P::Stream(s0()),
+        P::StreamUntil(s0(), s0()),
+        P::ReqReq(s0(), s0()),
+        P::All(vec![P::Req(s0()), P::Req(s0())]),
+        P::and(P::Req(s0()), P::Notify(s0())),
+        P::Done,
+        P::Event(s0()),
+        P::SpawnJoin(s0(), s0()),
+        P::QuietSelfAbort(s0()),
+        P::abortable(0, P::Select(s0(), s0())),
+        P::abortable(0, P::Stream(s0())),
+    ];
+    if thorough {
+        inner.extend([
+            P::then(P::Req(s0()), P::Select(s0(), s0())),
+            P::SelectJoinReq(s0(), s0(), s0()),
+            P::HandOff(s0(), s0(), s0()),
+            P::StreamHandOff(s0(), s0()),
+            P::MapEvent(Box::new(P::Select(s0(), s0()))),
+            P::JoinHosted(s0(), Box::new(P::Select(s0(), s0()))),
+            P::SelfAbort(s0(), s0()),
+        ]);
+    }
+    let mut out = vec![];
+    for q in inner {
+        let jh = P::JoinHosted(s0(), Box::new(q));
+        out.push(jh.clone());
+        out.push(P::MapEvent(Box::new(jh.clone())));
+        out.push(P::All(vec![jh.clone(), P::Req(s0())]));
+        out.push(P::then(jh.clone(), P::Notify(s0())));
+        if thorough {
+            out.push(P::abortable(1, jh.clone()));
+            out.push(P::then(P::Req(s0()), jh.clone()));
+            out.push(P::and(jh.clone(), P::Stream(s0())));
+        }
+    }
+    let mut out: Vec<P> = out.into_iter().map(P::normalized).collect();
+    out.sort();
+    out.dedup();
+    out
+}
+
 /// command-API programs that also use the legacy capability API from the same `update`
 fn mixed_programs() -> Vec<P> {
     let leg: Vec<P> = vec![P::Req(s0()), P::Stream(s0()), P::Notify(s0()), P::Burst(s0(), s0()), P::SpawnAfter(s0(), s0()), P::Join(s0(), s0()), P::Event(s0())];
@@ -288,6 +337,10 @@ pub fn suites(id: &str, tier: Tier) -> Vec<Suite> {
             for host in [HostKind::Bincode, HostKind::Json, HostKind::CoreCmd] {
                 v.push(Suite { name: "id-space-holes+batches", host, programs: registry_stress_programs(), bounds: bounds(tier.pick(6, 8), 0, 0, 0, 1) });
             }
+            // a command hosted by a *task of another command* that drives it by hand
+            for host in [HostKind::Direct, HostKind::StreamPoll] {
+                v.push(Suite { name: "hand-driven-nested-command", host, programs: join_hosted_programs(tier == Tier::Thorough), bounds: bounds(tier.pick(6, 7), 1, 1, 1, 2) });
+            }
             v
         }
         "C06" => {
@@ -339,6 +392,8 @@ pub fn suites(id: &str, tier: Tier) -> Vec<Suite> {
             vec![
                 Suite { name: "done-iff-nothing-left", host: HostKind::Direct, programs: progs, bounds: bounds(tier.pick(6, 9), 0, tier.pick(1, 2), 1, 2) },
                 Suite { name: "done-iff-nothing-left/aborts", host: HostKind::Direct, programs: with_abort(2), bounds: bounds(tier.pick(7, 9), 1, 1, 1, 2) },
+                Suite { name: "done-iff-nothing-left/hand-driven-nested-command", host: HostKind::Direct, programs: join_hosted_programs(tier == Tier::Thorough), bounds: bounds(tier.pick(6, 8), 1, 1, 1, 2) },
+                Suite { name: "done-iff-nothing-left/hand-driven-nested-command", host: HostKind::StreamPoll, programs: join_hosted_programs(tier == Tier::Thorough), bounds: bounds(tier.pick(6, 8), 1, 1, 1, 2) },
             ]
         }
         _ => vec![],
